@@ -819,6 +819,17 @@ def file_lines(ctx):
         L.append(gen.H("Ch10File", ["call write qwb [x0102;%s;x0304]" % bad, "pack"]))
     L.append(gen.H("Ch10File", ["call write qwb [x0102;Chapter11{channelID=65536};x0304]", "pack"]))
     L.append(gen.H("Ch10File", ["call write qwb [Chapter11{packetflag=128}]", "pack"]))
+    # objects with data_checksum_size = k > 0 (outside WFn/WFs): pack declares k bytes more than it emits, so the reader
+    # loses the packet when it is the last one and glues k bytes of the next packet on otherwise
+    # (C12.datacksum_last_packet_lost / datacksum_packet_swallows_next; model = code is what is checked here)
+    for k in (1, 2, 3, 4, 5, 8):
+        for n in (0, 1, 2, 3, 4):
+            obj = "Chapter11{data_checksum_size=%d,channelID=%d,payload=%s}" % (k, rng.boundary(16), hexb(rng.bytes_(n)))
+            nxt = "Chapter11{channelID=%d,payload=%s}" % (rng.boundary(16), hexb(rng.bytes_(rng.randrange(0, 9))))
+            tail = ["pack", "call iter", "call offset", "call reopen", "call next", "call offset", "call next", "call offset"]
+            L.append(gen.H("Ch10File", ["call write qwb [%s]" % obj] + tail))
+            L.append(gen.H("Ch10File", ["call write qwb [%s;%s]" % (obj, nxt)] + tail))
+            L.append(gen.H("Ch10File", ["call write qwb [%s;%s;%s]" % (nxt, obj, nxt)] + tail))
     L.append(gen.H("Ch10File", ["call next", "call iter", "call offset", "pack", "obs"]))
     return L
 
